@@ -16,6 +16,26 @@ func verifAssert(label string, cond bool) {
 func verifCanary(label string, cond bool) {}
 
 // ---------------------------------------------------------------------------
+// NodeID identity as seen by callers (C31, C33): the textual form is an uninterpreted function of the
+// NodeID object (NodeIDs are not mutated by the functions under contract); Equal compares it.
+// ---------------------------------------------------------------------------
+
+//@ ufunc nodeStr(*NodeID) string
+
+//@ func (*NodeID).String
+//@   props C31 C33
+//@   assumed
+//@   assigns nothing
+//@   ensures result == nodeStr(n)
+
+//@ func NewNumericNodeID
+//@   props C33
+//@   assumed
+//@   assigns nothing
+//@   ensures result != nil && fresh(result)
+//@   ensures ns == 0 && id == 0 ==> nodeStr(result) == "i=0"
+
+// ---------------------------------------------------------------------------
 // C24: policy names given as short names or URIs
 // ---------------------------------------------------------------------------
 
